@@ -5,4 +5,5 @@ pub mod swiftness_stark {
 //@include stark/oods.rs
 //@include stark/commit.rs
 //@include stark/verify.rs
+//@include stark/stark.rs
 } // mod swiftness_stark
